@@ -6,8 +6,8 @@ from checks.c15 import strict_eq
 
 def keys_for(tier):
     if tier == "thorough":
-        return "oct:32,oct:48,oct:64,oct:100,rsa:2048,rsa:3072,rsa:4096,ec:P-256,ec:P-384,ec:P-521,ec:secp256k1,okp:Ed25519,okp:Ed448"
-    return "oct:32,oct:64,rsa:2048,ec:P-256,ec:P-384,ec:P-521,ec:secp256k1,okp:Ed25519,okp:Ed448"
+        return "oct:32,oct:48,oct:64,oct:100,oct:33,rsa:2048,rsa:2050,rsa:2054,rsa:3072,rsa:3074,rsa:4096,ec:P-256,ec:P-384,ec:P-521,ec:secp256k1,okp:Ed25519,okp:Ed448"
+    return "oct:32,oct:64,oct:33,rsa:2048,rsa:2050,ec:P-256,ec:P-384,ec:P-521,ec:secp256k1,okp:Ed25519,okp:Ed448"
 
 
 def judge(path):
@@ -80,7 +80,7 @@ def judge(path):
 
 def run(tier, seed, replay):
     rep = vf.Report("C05", tier, seed)
-    rep.rule = ("fresh keys of every type/size x every admissible alg x all four (signing, verifying) provider pairs x random header/claim JSON trees "
+    rep.rule = ("fresh keys of every type/size (incl. RSA moduli that are not a multiple of 8 bits and oct keys of odd length) x every admissible alg x all four (signing, verifying) provider pairs x random header/claim JSON trees "
                 "(depth <= 6, unicode incl. astral, escapes, int64 extremes, reals, empty containers, strings to 64 KiB, hundreds of members) set "
                 "through whole-object merge or typed per-member setters, at random clock values; ECDSA gets extra weight so that signatures with a "
                 "leading zero byte in r or s occur. distinct = distinct (key, alg, provider pair, route, size bucket, short-r/s) tuples")
